@@ -1,16 +1,204 @@
-import Upd.Ingest
+import Upd.IngestProofs
 /-!
 # C17 — fallback-tag referrers are converted without loss, repeatably
-(work in progress)
+
+Model: `Upd.ingest nm order x` (Upd/Ingest.lean) — `indexIngest` of internal/store/store.go with `indexValidReferrer`,
+`referrerListDedup`, `repoGetIndex`, over the `types.Index` model `Upd.Index`, as called by `memRepo.repoInit` and
+`dirRepo.indexLoad`; it mirrors the code with the repairs F21 (lock, invisible here), F23 (an adopted fallback index is
+remembered) and F30 (an existing response blob is not an error).  `nm` is the digest of a regenerated response
+document, `order` the order in which Go iterates over the map `addResp`.  The model is tied to the code by the
+`ingest` correspondence profile (harness/inpkg/store/ingest_harness_test.go, lean/Drivers/IngestMain.lean).
+
+What the statements talk about (Upd/IngestLemmas.lean, Upd/IngestProofs.lean):
+* `HasTag ix t g` — tag `t` names digest `g`; `HasResp ix S g` — the referrers API answers subject `S` from blob `g`
+  (an entry with the annotation `org.olareg.referrer.subject = S`); `Listed ix g` — `g` is listed at top level;
+* `content bs g` — the manifests of index blob `g`; `subjOf bs m` — the subject that the present manifest `m` names;
+* `ObsEq a b` — equal converted flag, tags, responses, listed digests and blob look-ups;
+* `persist` — what `indexSave` followed by a load keeps (children are not stored, an emptied annotation map is nil).
+
+Domain.  A layout `x` as `indexIngest` receives it: freshly parsed (`x.index.children = []`), the empty string is not
+the digest of a blob.  `NoBoth`: no index.json entry is a tag and a referrers response at once — every index that
+`types.Index.AddDesc` builds satisfies it (C18) and fallback-tag clients do not write the response annotation at all.
 -/
 namespace C17
 open Upd
 
-/-- the child scan terminates: every iteration of `for len(scanChildren) > 0` decreases
-    `2 · #(listed digests not yet seen) + len(scanChildren)` -/
+/-! ## the conversion keeps everything else, and marks the layout -/
+
+/-- **convert_keeps.** For every map order and every layout that is not yet marked as converted: the result is
+    marked as converted; every entry that carries a tag which is not a fallback tag is still there, unchanged;
+    the digest of every entry that is not itself a referrers response (untagged manifests, tagged manifests, the
+    fallback indexes themselves) is still listed; every blob is still there with its content. -/
+theorem convert_keeps (nm : List Desc → String) (order : List (String × List Desc) → List (String × List Desc))
+    (horder : ∀ l, (order l).Perm l) (x : IState) (hc : x.converted = false)
+    (hnb : NoBoth x.index.manifests) (hch : x.index.children = []) (hne : lookup x.blobs "" = none) :
+    (ingest nm order x).converted = true ∧
+    (∀ e ∈ x.index.manifests, e.ann.isNil = false → e.ann.tag ≠ "" → isFallbackTag e.ann.tag = false →
+        e ∈ (ingest nm order x).index.manifests) ∧
+    (∀ e ∈ x.index.manifests, (e.ann.isNil = true ∨ e.ann.subj = "") → Listed (ingest nm order x).index e.dig) ∧
+    (∀ g n, lookup x.blobs g = some n → lookup (ingest nm order x).blobs g = some n) :=
+  convert_keeps_main nm order horder x hc hnb hch hne
+
+/-- a layout with an untagged artifact `m1` of subject `S1`, a tagged image `m2`, and a fallback tag whose index
+    lists `m1` with a stale size -/
+def sample : IState :=
+  { index := { manifests := [ { mt := "ocim", dig := "m1" },
+                              { mt := "ocim", dig := "m2", ann := { isNil := false, tag := "v1" } },
+                              { mt := "ocii", dig := "T", ann := { isNil := false, tag := "fbS1" } } ] },
+    blobs := [ ("m1", .man "S1" "ocim" (some "cfg") "" "" 10 none),
+               ("m2", .man "" "ocim" (some "cfg") "" "" 11 none),
+               ("T", .idx [ { mt := "ocim", dig := "m1", size := 9, atype := "cfg" } ]) ] }
+
+/-- the hypotheses of `convert_keeps` are satisfiable, and on `sample` the conversion has work to do: one fallback
+    tag is examined, its index is stale, one response is regenerated and the tag is removed -/
+example : sample.converted = false ∧ NoBoth sample.index.manifests ∧ sample.index.children = [] ∧
+    lookup sample.blobs "" = none ∧ (pass1 sample.index.manifests).digestTags.length = 1 ∧
+    (phase1 sample).addResp.length = 1 ∧ (phase1 sample).rm.length = 1 := by
+  refine ⟨rfl, ?_, rfl, rfl, by decide, by decide, by decide⟩
+  unfold NoBoth; decide
+
+/-! ## exactly the referrers of the fallback indexes -/
+
+/-- **convert_exact_partial.** After the conversion the referrers API lists manifest `m` for subject `S` iff
+    the response that index.json recorded for `S` before listed `m`, or some fallback-tagged index lists `m` and
+    `m` is a present manifest whose subject is `S` — whatever the name of the fallback tag says, whatever else the
+    index lists, however stale its descriptors are.
+
+    Excluded (hence `_partial`): layouts in which an entry is a tag and a response at once (`NoBoth`); in which a
+    response entry has another media type than the OCI index or one subject has two responses with different
+    digests (`RespWF`) — no writer produces these, `AddDesc` keeps both invariants; and layouts in which the blob of
+    a recorded response is missing (`hrp`).  `hcas` and `hnm` are the content-addressing assumptions: a blob whose
+    digest is that of an index document is that document, and the digest function does not collide on the
+    documents this conversion writes (`Function.Injective nm` suffices). -/
+theorem convert_exact_partial (nm : List Desc → String) (order : List (String × List Desc) → List (String × List Desc))
+    (horder : ∀ l, (order l).Perm l) (x : IState) (hc : x.converted = false)
+    (hnb : NoBoth x.index.manifests) (hch : x.index.children = []) (hne : lookup x.blobs "" = none)
+    (hwf : RespWF x.index.manifests)
+    (hrp : ∀ e ∈ x.index.manifests, e.ann.isNil = false → e.ann.subj ≠ "" → (lookup x.blobs e.dig).isSome = true)
+    (hcas : ∀ ds n, lookup x.blobs (nm ds) = some n → n = .idx ds) (hnm : NoCollision nm x)
+    (S m : String) (hS : S ≠ "") :
+    (∃ g, HasResp (ingest nm order x).index S g ∧ ∃ d ∈ content (ingest nm order x).blobs g, d.dig = m) ↔
+      ((∃ r ∈ x.index.manifests, r.ann.isNil = false ∧ r.ann.subj = S ∧ ∃ d ∈ content x.blobs r.dig, d.dig = m) ∨
+       (∃ T ∈ x.index.manifests, T.mt = "ocii" ∧ T.ann.isNil = false ∧ isFallbackTag T.ann.tag = true ∧
+          ∃ d ∈ content x.blobs T.dig, d.dig = m ∧ subjOf x.blobs m = some S)) := by
+  have hrp' : RespPresent x.blobs (pass1 x.index.manifests).respOf := by
+    intro S' r hr
+    obtain ⟨hrm, _, hrn, hrs, hS'⟩ := (pass1_respOf x.index.manifests S').1 r hr
+    exact hrp r hrm hrn (by rw [hrs]; exact hS')
+  rw [convert_exact_main nm order horder x hc hnb hch hne hrp' hwf hcas hnm S m hS]
+  have hold : (∃ d ∈ oldContent x.blobs (pass1 x.index.manifests).respOf S, d.dig = m) ↔
+      (∃ r ∈ x.index.manifests, r.ann.isNil = false ∧ r.ann.subj = S ∧ ∃ d ∈ content x.blobs r.dig, d.dig = m) := by
+    obtain ⟨p1, p2⟩ := pass1_respOf x.index.manifests S
+    rw [oldContent_eq]
+    constructor
+    · rintro ⟨d, hd, hm⟩
+      cases hr : lookupResp (pass1 x.index.manifests).respOf S with
+      | none => rw [hr] at hd; cases hd
+      | some r =>
+        rw [hr] at hd
+        obtain ⟨hrm, _, hrn, hrs, _⟩ := p1 r hr
+        exact ⟨r, hrm, hrn, hrs, d, hd, hm⟩
+    · rintro ⟨r, hrm, hrn, hrs, d, hd, hm⟩
+      have hresp : isResp r S := ⟨hwf.1 r hrm hrn (by rw [hrs]; exact hS), hrn, hrs, hS⟩
+      obtain ⟨r', hr'⟩ := p2 ⟨r, hrm, hresp⟩
+      obtain ⟨hrm', _, hrn', hrs', _⟩ := p1 r' hr'
+      have hdig : r'.dig = r.dig := hwf.2 r' hrm' r hrm hrn' hrn (by rw [hrs']; exact hS) (by rw [hrs', hrs])
+      rw [hr']
+      exact ⟨d, by simp only; rw [hdig]; exact hd, hm⟩
+  have hcon : Contrib x.blobs (pass1 x.index.manifests).digestTags S m ↔
+      (∃ T ∈ x.index.manifests, T.mt = "ocii" ∧ T.ann.isNil = false ∧ isFallbackTag T.ann.tag = true ∧
+          ∃ d ∈ content x.blobs T.dig, d.dig = m ∧ subjOf x.blobs m = some S) := by
+    unfold Contrib
+    constructor
+    · rintro ⟨T, hT, h⟩
+      obtain ⟨h1, h2, h3, h4⟩ := (pass1_digestTags _ T).mp hT
+      exact ⟨T, h1, h2, h3, h4, h⟩
+    · rintro ⟨T, h1, h2, h3, h4, h⟩
+      exact ⟨T, (pass1_digestTags _ T).mpr ⟨h1, h2, h3, h4⟩, h⟩
+  rw [hold, hcon]
+
+/-- the hypotheses of `convert_exact_partial` are satisfiable (with the structural digest function of the
+    driver), and for `sample` the right-hand side holds for `S1`, `m1`: the theorem says `m1` is listed -/
+example : RespWF sample.index.manifests ∧
+    (∀ e ∈ sample.index.manifests, e.ann.isNil = false → e.ann.subj ≠ "" → (lookup sample.blobs e.dig).isSome = true) ∧
+    NoCollision idxName sample ∧
+    (∃ T ∈ sample.index.manifests, T.mt = "ocii" ∧ T.ann.isNil = false ∧ isFallbackTag T.ann.tag = true ∧
+        ∃ d ∈ content sample.blobs T.dig, d.dig = "m1" ∧ subjOf sample.blobs "m1" = some "S1") := by
+  refine ⟨by unfold RespWF; decide, by decide, ?_, ?_⟩
+  · -- one document is written, so there is nothing to collide with
+    rintro l l' ⟨kv, hkv, rfl⟩ ⟨kv', hkv', rfl⟩ _
+    have h1 : (phase1 sample).addResp.length = 1 := by decide
+    match hl : (phase1 sample).addResp, h1 with
+    | [a], _ =>
+      rw [hl] at hkv hkv'
+      simp only [List.mem_singleton] at hkv hkv'
+      rw [hkv, hkv']
+  · exact ⟨{ mt := "ocii", dig := "T", ann := { isNil := false, tag := "fbS1" } }, by decide, rfl, rfl, by decide,
+      { mt := "ocim", dig := "m1", size := 9, atype := "cfg" }, by decide, rfl, by decide⟩
+
+/-! ## repeating the conversion -/
+
+/-- **convert_idem.** Saving the converted index, loading it again and running `indexIngest` on it — with any
+    digest function and any map order, for every layout — changes nothing observable: the same tags, the same
+    responses, the same listed digests, the same blobs, still marked as converted. -/
+theorem convert_idem (nm nm' : List Desc → String) (order order' : List (String × List Desc) → List (String × List Desc))
+    (x : IState) : ObsEq (ingest nm' order' (persist (ingest nm order x))) (ingest nm order x) :=
+  convert_idem_main nm nm' order order' x
+
+/-- the second run sees a layout that is marked as converted, whatever the first one started from -/
+example (x : IState) : (persist (ingest idxName id x)).converted = true := ingest_converted_true idxName id x
+
+/-! ## the iteration order of the Go map does not matter -/
+
+/-- **convert_order_indep_partial.** For any two orders in which Go may iterate over `addResp` the results agree
+    on everything observable, and on the recorded children.  (The raw entry lists do differ: the order decides
+    which entry a swap-remove moves and thereby whether an additional untagged entry of a digest that is listed
+    anyway survives.)
+
+    Excluded (hence `_partial`): layouts violating `NoBoth`, and layouts in which the blob of a recorded response
+    is missing (`hrp`) — if that digest happened to be the digest of a response regenerated for another subject,
+    its content would be merged or not depending on the order. `hnm` as in `convert_exact_partial`. -/
+theorem convert_order_indep_partial (nm : List Desc → String)
+    (order order' : List (String × List Desc) → List (String × List Desc))
+    (horder : ∀ l, (order l).Perm l) (horder' : ∀ l, (order' l).Perm l) (x : IState)
+    (hnb : NoBoth x.index.manifests) (hch : x.index.children = []) (hne : lookup x.blobs "" = none)
+    (hrp : ∀ e ∈ x.index.manifests, e.ann.isNil = false → e.ann.subj ≠ "" → (lookup x.blobs e.dig).isSome = true)
+    (hnm : NoCollision nm x) :
+    ObsEq (ingest nm order x) (ingest nm order' x) ∧
+    (ingest nm order x).index.children = (ingest nm order' x).index.children := by
+  have hrp' : RespPresent x.blobs (pass1 x.index.manifests).respOf := by
+    intro S' r hr
+    obtain ⟨hrm, _, hrn, hrs, hS'⟩ := (pass1_respOf x.index.manifests S').1 r hr
+    exact hrp r hrm hrn (by rw [hrs]; exact hS')
+  exact convert_order_indep_main nm order order' horder horder' x hnb hch hne hrp' hnm
+
+/-- two different orders exist -/
+example : (∀ l : List (String × List Desc), (id l).Perm l) ∧ (∀ l : List (String × List Desc), (List.reverse l).Perm l) ∧
+    (List.reverse [("S1", ([] : List Desc)), ("S2", [])] ≠ id [("S1", ([] : List Desc)), ("S2", [])]) :=
+  ⟨fun _ => List.Perm.refl _, fun l => List.reverse_perm l, by decide⟩
+
+/-! ## termination -/
+
+/-- **ingest_terminates.** The child scan `for len(scanChildren) > 0 { … }` terminates on every repository: the
+    relation "one iteration leads from `a` to `a'`" is well-founded, because every iteration decreases
+    `scanMeasure = 2 · #(digests listed by index blobs and not yet seen) + len(scanChildren)`
+    (`Upd.scanIter_decreases`).  `Upd.childScan` is defined by recursion on that measure, without fuel; the other
+    loops of `indexIngest` range over finite slices and maps, and `referrerListDedup` is `Upd.dedupGo`, defined by
+    recursion on `len(rl) - i`.  (The locks are not part of this model: the self-deadlock F21 is found by the
+    `ingest-hangs` monitor.) -/
 theorem ingest_terminates (bs : List (String × INode)) :
     WellFounded (fun (a' a : Scan) => scanIter bs a = some a') := by
   apply Subrelation.wf (r := InvImage (· < ·) (scanMeasure bs))
   · intro a' a h; exact scanIter_decreases bs a a' h
   · exact InvImage.wf _ Nat.lt_wfRel.wf
+
+/-- … and `childScan` is that loop run to its end: the scan list of its result is empty -/
+theorem childScan_ends (bs : List (String × INode)) (a : Scan) : scanIter bs (childScan bs a) = none := by
+  fun_induction childScan bs a with
+  | case1 a h => exact h
+  | case2 a a' _ ih => exact ih
+
+/-- the loop does run: scanning an index with one unseen child takes an iteration and records the child -/
+example : scanIter [("I", .idx [{ mt := "ocim", dig := "c" }])] { queue := [{ mt := "ocii", dig := "I" }], seen := ["I"] } =
+    some { queue := [], seen := ["c", "I"], children := [{ mt := "ocim", dig := "c" }] } := by rfl
 end C17
